@@ -334,6 +334,10 @@ func outScript(rng *rand.Rand, class string) ([]byte, [][]byte) {
 	case "nulldata":
 		d := randBytes(rng, 4+rng.Intn(30))
 		return append([]byte{txscript.OP_RETURN}, push(d)...), [][]byte{d}
+	case "unparse":
+		return append([]byte{txscript.OP_DATA_20}, randBytes(rng, 1+rng.Intn(10))...), nil
+	case "unparse2":
+		return []byte{txscript.OP_PUSHDATA1}, nil
 	}
 	return []byte{txscript.OP_TRUE}, nil
 }
@@ -341,7 +345,7 @@ func outScript(rng *rand.Rand, class string) ([]byte, [][]byte) {
 var flagOf = map[string]wire.BloomUpdateType{"none": wire.BloomUpdateNone, "all": wire.BloomUpdateAll, "p2pubkey": wire.BloomUpdateP2PubkeyOnly}
 
 var classOf = map[string]txscript.ScriptClass{"p2pkh": txscript.PubKeyHashTy, "p2pk": txscript.PubKeyTy, "multisig": txscript.MultiSigTy,
-	"nulldata": txscript.NullDataTy, "nopush": txscript.NonStandardTy}
+	"nulldata": txscript.NullDataTy, "nopush": txscript.NonStandardTy, "unparse": txscript.NonStandardTy, "unparse2": txscript.NonStandardTy}
 
 func txCase(rng *rand.Rand, cs, table tla.Value, p bloomParams, st *stats) (*bloomCase, error) {
 	flag := cs.F("flag").Str()
@@ -437,7 +441,24 @@ func txCase(rng *rand.Rand, cs, table tla.Value, p bloomParams, st *stats) (*blo
 		}
 		fmt.Fprintf(&sb, `{"op":%s,"pushes":%s}`, p.item(serOutPoint(&in.op)), items(in.pushes))
 	}
-	fmt.Fprintf(&sb, `],"after":%s`, items(after))
+	fmt.Fprintf(&sb, `],"after":%s,"follow":[`, items(after))
+	// the follow-up transactions: each spends one output, nothing else of them is in the filter
+	var spenders []*wire.MsgTx
+	for i := range outs {
+		sp := wire.NewMsgTx(2)
+		sig, pk := randBytes(rng, 70+rng.Intn(3)), pubKey(rng)
+		sp.AddTxIn(wire.NewTxIn(&wire.OutPoint{Hash: txid, Index: uint32(i)}, append(push(sig), push(pk)...), nil))
+		sp.AddTxOut(wire.NewTxOut(500, []byte{txscript.OP_TRUE}))
+		sp.LockTime = rng.Uint32()
+		spenders = append(spenders, sp)
+		sid := sp.TxHash()
+		if i > 0 {
+			sb.WriteByte(',')
+		}
+		fmt.Fprintf(&sb, `{"txid":%s,"outs":[{"class":"nopush","pushes":[],"op":%s}],"ins":[{"op":%s,"pushes":%s}]}`,
+			p.item(sid[:]), p.item(serOutPoint(&wire.OutPoint{Hash: sid, Index: 0})), p.item(after[i]), items([][]byte{sig, pk}))
+	}
+	sb.WriteString("]")
 	tableMatched := table.F("matched").Bool()
 	tableIns := map[int]bool{}
 	for _, i := range table.F("inserted").Ints() {
@@ -501,6 +522,33 @@ func txCase(rng *rand.Rand, cs, table tla.Value, p bloomParams, st *stats) (*blo
 			if wantAfter[i] != tableIns[i+1] {
 				collision = true
 			}
+		}
+		wantFollow := boolsOf(ex.F("follow"))
+		ml := f.MsgFilterLoad()
+		for i, sp := range spenders {
+			f2 := bloom.LoadFilter(wire.NewMsgFilterLoad(append([]byte(nil), ml.Filter...), ml.HashFuncs, ml.Tweak, ml.Flags))
+			c.AddEval(1)
+			g := f2.MatchTxAndUpdate(btcutil.NewTx(sp))
+			if tableIns[i+1] && !wantFollow[i] {
+				panic("TraceBloom contradicts the decision table: the transaction spending an inserted outpoint does not match")
+			}
+			if wantFollow[i] != tableIns[i+1] {
+				collision = true
+			}
+			if g == wantFollow[i] {
+				continue
+			}
+			r2 := cloneMap(replay)
+			r2["output"] = i
+			var sraw bytes.Buffer
+			sp.Serialize(&sraw)
+			r2["spending_tx"] = fmt.Sprintf("%x", sraw.Bytes())
+			key := "bloom:tx-spender"
+			if wantFollow[i] {
+				key = "bloom:tx-spender-missed"
+			}
+			c.Violation(key, fmt.Sprintf("after MatchTxAndUpdate (flag %s) the transaction that spends output %d (class %s) gives MatchTxAndUpdate = %v, the specification says %v (case %s, filter %s)",
+				flag, i, outs[i].class, g, wantFollow[i], cs.String(), p), r2)
 		}
 		if collision {
 			// data share bit positions in this (small) filter: the exact
